@@ -62,10 +62,34 @@ thread_local! {
     static LAST_PANIC: std::cell::RefCell<Option<String>> = const { std::cell::RefCell::new(None) };
 }
 
+/// Normalised panic location: `harness:src/...` for the harness's own files,
+/// `repo:src/...` for scryer-prolog sources, `dep:<crate-dir>/src/...` for other crates.
+pub fn norm_loc(file: &str, line: u32) -> String {
+    if file.starts_with("src/") {
+        return format!("harness:{file}:{line}");
+    }
+    if let Some(i) = file.find("/harness/src/") {
+        return format!("harness:{}:{line}", &file[i + "/harness/".len()..]);
+    }
+    if file.contains("/.cargo/registry/") || file.contains("/rustc/") || file.contains("/rustlib/") {
+        let parts: Vec<&str> = file.split('/').collect();
+        if let Some(i) = parts.iter().rposition(|p| *p == "src") {
+            if i > 0 {
+                return format!("dep:{}:{line}", parts[i - 1..].join("/"));
+            }
+        }
+        return format!("dep:{file}:{line}");
+    }
+    match file.rfind("/src/") {
+        Some(i) => format!("repo:{}:{line}", &file[i + 1..]),
+        None => format!("repo:{file}:{line}"),
+    }
+}
+
 /// Install a panic hook that records message+location instead of printing.
 pub fn install_quiet_panic_hook() {
     std::panic::set_hook(Box::new(|info| {
-        let loc = info.location().map(|l| format!("{}:{}", l.file(), l.line())).unwrap_or_default();
+        let loc = info.location().map(|l| norm_loc(l.file(), l.line())).unwrap_or_default();
         let msg = if let Some(s) = info.payload().downcast_ref::<&str>() {
             s.to_string()
         } else if let Some(s) = info.payload().downcast_ref::<String>() {
